@@ -1,6 +1,9 @@
 package jsonrpc
 
-import "strings"
+import (
+	"unicode"
+	"unicode/utf8"
+)
 
 // MethodNameFormatter is a function that takes a namespace and a method name and returns the full method name, sent via JSON-RPC.
 // This is useful if you want to customize the default behaviour, e.g. send without the namespace or make it lowercase.
@@ -19,7 +22,9 @@ func NewMethodNameFormatter(includeNamespace bool, nameCase CaseStyle) MethodNam
 	return func(namespace, method string) string {
 		formattedMethod := method
 		if nameCase == LowerFirstCharCase && len(method) > 0 {
-			formattedMethod = strings.ToLower(method[:1]) + method[1:]
+			// the first letter, which need not be a single byte
+			r, size := utf8.DecodeRuneInString(method)
+			formattedMethod = string(unicode.ToLower(r)) + method[size:]
 		}
 		if includeNamespace {
 			return namespace + "." + formattedMethod
